@@ -5,3 +5,4 @@ pub mod sym;
 pub mod input;
 pub mod recv;
 pub mod maps;
+pub mod body;
